@@ -48,6 +48,8 @@ class CallsMixin:
             self.set_result(st, ins, [])
             return None
         self.callsite_obligations(st, fr, ins, callee, args)
+        if fr is cx.top and cx.contract.opts.get('stable-from') and cx.contract.opts['stable-from'] in callee:
+            st.ghost['stable-on'] = z3.IntVal(1)
         if fr is cx.top:
             for pat in cx.call_patterns:
                 if pat in callee:
@@ -569,6 +571,9 @@ class CallsMixin:
         stable = []
         if fr is not cx.top:
             return stable
+        sf = cx.contract.opts.get('stable-from')
+        if sf and st.ghost.get('stable-on') is None:
+            return stable   # the stability assumption starts at the first call of the named callee
         if cx.contract.opts.get('stable'):
             from .contracts import split_top
             from . import exprparse
@@ -588,8 +593,10 @@ class CallsMixin:
                         continue
                     l = ev0.loc(exprparse.parse(txt))
                     stable.append((txt, l, st.load(l, facts=False)))
-                except SpecError:
-                    pass
+                except SpecError as ex:
+                    import os as _os
+                    if _os.environ.get('VCGEN_STABLE_DEBUG'):
+                        print('STABLE-SKIP', txt, ex)
         for n in getattr(cx, 'freevar_names', []):
             reg = st.regs.get(n)
             if reg is not None and self.types.kind(reg.t) == 'ptr' and reg.lv is not None:
